@@ -21,3 +21,7 @@ def run(check):
     check.run_rule('C12.R1', lambda c: rule_prepare_table(c, 'C12.R1', 'C12.R1'))
     check.run_rule('C12.R2', lambda c: rule_call_table(c, 'C12.R2'))
     check.run_rule('C12.R3', lambda c: rule_forms(c, 'C12.R3'))
+    from ..rules_modifiers import rule_descriptor_cache
+    check.run_rule('C12.R4', lambda c: rule_descriptor_cache(c, 'C12.R4', None))
+    from ..rules_modifiers import rule_cache_per_descriptor
+    check.run_rule('C12.R4b', lambda c: rule_cache_per_descriptor(c, 'C12.R4'))
